@@ -27,9 +27,9 @@ TECHNIQUE = 'Lean 4 proof (induction over balanced operation histories, frame in
 TRUSTED = ['python oracle harness/props/c04.py:ScopeOracle (abstract scoping semantics for balanced histories)']
 ASSUMPTIONS = ['objects pushed in balanced histories are not document-level (a document-level push resets the stack by design)',
                'category codes 0..15']
-RULE = ('exhaustive: every history of length <= L over 25 concrete operations (L=3 quick, 4 thorough); seeded: random histories up to length 60, half of them balanced by construction; '
+RULE = ('exhaustive: every history of length <= L over 27 concrete operations (L=3 quick, 4 thorough); seeded: random histories up to length 60, half of them balanced by construction; '
         'non-trivial = history contains a push, a pop and at least one definition/let/catcode operation; distinct = distinct request line')
-EXHAUSTIVE = {'quick': 'all histories of length <= 3 over the 25-operation alphabet', 'thorough': 'all histories of length <= 4 over the 25-operation alphabet'}
+EXHAUSTIVE = {'quick': 'all histories of length <= 3 over the 27-operation alphabet', 'thorough': 'all histories of length <= 4 over the 27-operation alphabet'}
 CASE_TIMEOUT = 30
 
 logging.disable(logging.CRITICAL)
@@ -42,7 +42,7 @@ POOLW = ' '.join('o:%d:%d:%d:%d:%d:%s' % (i, p, t, me, dl, ','.join(str(ord(c)) 
 NAMES, LETS, CHARS = [1, 2, 3], [1, 2], [64, 92, 37, 97]
 
 OPS = ['pu:0', 'pu:1', 'pu:2', 'pu:6:1=20', 'pu:5', 'po:0', 'po:1', 'po:2', 'po:3', 'po:4', 'po:6',
-       'ag:1:10', 'ag:2:11', 'al:1:12', 'al:2:13', 'lc:1:2', 'lc:3:1', 'lt:1:65', 'lt:2:66',
+       'ag:1:10', 'ag:2:11', 'gd:1:30', 'gd:2:31', 'al:1:12', 'al:2:13', 'lc:1:2', 'lc:3:1', 'lt:1:65', 'lt:2:66',
        'sc:64:11', 'sc:92:12', 'sc:97:14', 'sv', 'lk:1', 'lk:3']
 LOCAL_OPS = [o for o in OPS if not o.startswith(('pu', 'po'))]
 
@@ -127,7 +127,7 @@ def corpus():
 
 def nontrivial(o):
     ws = o.case.line.split('|')[1].split()
-    return any(w.startswith('pu') for w in ws) and any(w.startswith('po') for w in ws) and any(w[:2] in ('ag', 'al', 'lc', 'lt', 'sc', 'sv') for w in ws)
+    return any(w.startswith('pu') for w in ws) and any(w.startswith('po') for w in ws) and any(w[:2] in ('ag', 'gd', 'al', 'lc', 'lt', 'sc', 'sv') for w in ws)
 
 
 # ---------------------------------------------------------------- implementation side
@@ -182,6 +182,7 @@ def dump(ctx):
         v = ctx.top.get('n%d' % n)
         if v is None: s = '-'
         elif hasattr(v, 'vid'): s = 'D%d' % v.vid
+        elif isinstance(getattr(v, 'definition', None), list): s = 'D' + ''.join(str(t) for t in v.definition)
         else: s = 'U%s' % v.__name__[1:]
         ms.append('%d:%s:%d' % (n, s, 1 if ('n%d' % n) in ctx else 0))
     ls = []
@@ -200,6 +201,7 @@ def apply_op(ctx, objs, w):
     if f[0] == 'pu': ctx.push(objs[int(f[1])] if f[1] != '0' else None)
     elif f[0] == 'po': ctx.pop(objs[int(f[1])] if f[1] != '0' else None)
     elif f[0] == 'ag': ctx.addGlobal('n' + f[1], c['val'](int(f[1]), int(f[2])))
+    elif f[0] == 'gd': ctx.newdef('n' + f[1], None, f[2], local=False)      # \gdef: definition text = the value id
     elif f[0] == 'al': ctx.addLocal('n' + f[1], c['val'](int(f[1]), int(f[2])))
     elif f[0] == 'lc': ctx.let(EscapeSequence('n' + f[1]), EscapeSequence('n' + f[2]))
     elif f[0] == 'lt': ctx.let(EscapeSequence('n' + f[1]), Letter(chr(int(f[2]))))
@@ -247,6 +249,11 @@ class ScopeOracle:
             elif f[0] == 'po':
                 self.scopes.pop(); self.cat.pop(); self.verb.pop()
             elif f[0] == 'ag': self.scopes[0]['m'][int(f[1])] = 'D' + f[2]
+            elif f[0] == 'gd':
+                # \gdef: the new meaning holds at every level (TeX: a global assignment discards the local values)
+                for sc in self.scopes:
+                    sc['m'].pop(int(f[1]), None)
+                self.scopes[0]['m'][int(f[1])] = 'D' + f[2]
             elif f[0] == 'al': self.scopes[-1]['m'][int(f[1])] = 'D' + f[2]
             elif f[0] == 'lk': self.lookup(int(f[1]))
             elif f[0] == 'lc': self.scopes[-1]['m'][int(f[1])] = self.lookup(int(f[2]))
@@ -453,8 +460,9 @@ class DocGen:
         elif r < 0.55:
             w = self.word()
             self.src.append('\\gdef\\p%s{%s}' % ('abc'[k - 1], w))
-            # plasTeX's scoping model (and the property's "innermost live definition"): a global definition is written to
-            # the outermost scope; enclosing local definitions keep shadowing it (TeX itself would discard them)
+            # \gdef replaces the meaning at every group level (TeX: a global assignment discards the local values)
+            for sc in self.scopes:
+                sc.pop(k, None)
             self.scopes[0][k] = w
         elif r < 0.65:
             j = self.rng.randint(1, 3)
